@@ -302,6 +302,51 @@ theorem augKV {x X wx y Y wy} (hx : RefinesEP PV x X wx) (hy : Refines y Y wy) (
       (Kept (hashmapAugE n X Y) s v s' ∧ (v.noVar = true → Rd.loadHashmapAugE n x y false s = some (viewAugE wx wy n v, s'))) :=
   ⟨fun hd => ⟨hd, (RefinesEP.augEV hx hy n) s v s' hd⟩, fun hd => hd.1⟩
 
+/-! ### `Slice.load_hashmap_aug` : an inline `HashmapAug n X Y` -/
+
+theorem augWalkInline_sound (X Y : Codec) (Q : Val → Prop) (x y : Frag → Rd.R) (wx wy : Val → Val)
+    (hx : RefinesP Q x X wx) (hy : Refines y Y wy) (n : Nat) (s : Frag) (tv : Val) (s' : Frag)
+    (h : (hashmapAugF X Y (n + 1) n).dec s = some (tv, s')) (hq : ∀ p ∈ flattenAug id (n + 1) n [] tv, Q p.2) :
+    Rd.augWalkInline x y n s = some ((flattenAug wx (n + 1) n [] tv, extrasAug wy (n + 1) n tv), s') := by
+  simp only [hashmapAugF, recd_dec, fld, dep, decFields_cons, decFields_nil] at h
+  obtain ⟨vs, ⟨lv, s1, hl, vs', ⟨nv, s2, hn, vs'', ⟨rfl, rfl⟩, rfl⟩, rfl⟩, rfl⟩ := h
+  have hget : Env.get [("label", lv)] "label" = lv := by simp [Env.get, List.lookup]
+  rw [hget] at hn
+  simp only [flattenAug, extrasAug, get_label, get_node, List.nil_append, id] at hq ⊢
+  simp only [Rd.augWalkInline, hl]
+  unfold ahmNode at hn
+  by_cases hle : labelLen lv ≤ n
+  · simp only [hle, if_true] at hn
+    by_cases hz : n - labelLen lv = 0
+    · simp only [hz, if_true] at hn hq ⊢
+      simp only [recd_dec, fld, decFields_cons, decFields_nil] at hn
+      obtain ⟨vs, ⟨e, s3, he, vs', ⟨v, s4, hv, vs'', ⟨rfl, rfl⟩, rfl⟩, rfl⟩, rfl⟩ := hn
+      simp only [get_extra_value_v, get_extra_value_e] at hq ⊢
+      have hk := hx _ _ _ hv (hq _ (List.mem_singleton.2 rfl))
+      simp [hy _ _ _ he, hk]
+    · simp only [hz, if_false] at hn hq ⊢
+      simp only [recd_dec, fld, decFields_cons, decFields_nil, ref_dec] at hn
+      obtain ⟨vs, ⟨a, s3, ⟨bs, b0, r0, more, rfl, ha, rfl⟩, vs', ⟨bb, s4, ⟨bs', b1, r1, more', hs, hb, rfl⟩, vs'',
+        ⟨e, s5, he, vs''', ⟨rfl, rfl⟩, rfl⟩, rfl⟩, rfl⟩, rfl⟩ := hn
+      simp only [Frag.mk.injEq] at hs
+      obtain ⟨rfl, rfl⟩ := hs
+      simp only [get_lre_l, get_lre_r, get_lre_e] at hq ⊢
+      have hxe : ∀ s v, X.dec s = some (v, ⟨[], []⟩) → Q v → ∃ k, x s = some (wx v, k) := fun s v hd hqv => ⟨_, hx s v _ hd hqv⟩
+      have h1 := augWalk_sound X Y Q x y wx wy hxe hy n (n - labelLen lv - 1) (Rd.labelBitsOf lv ++ [false]) _ _ _ ha
+        (fun p hp => hq p (List.mem_append.2 (Or.inl hp)))
+      have h2 := augWalk_sound X Y Q x y wx wy hxe hy n (n - labelLen lv - 1) (Rd.labelBitsOf lv ++ [true]) _ _ _ hb
+        (fun p hp => hq p (List.mem_append.2 (Or.inr hp)))
+      simp [h1, h2, hy _ _ _ he]
+  · simp [hle, failC] at hn
+
+/-- `S.load_hashmap_aug(n, x, y)` against an inline `HashmapAug n X Y` (no `addr_var` inside the value) -/
+theorem augInlKV {x X wx y Y wy} (hx : RefinesP PV x X wx) (hy : Refines y Y wy) (n : Nat) (s : Frag) (v : Val) (s' : Frag) :
+    ((hashmapAug n X Y).dec s = some (v, s')) ↔
+      (Kept (hashmapAug n X Y) s v s' ∧ (v.noVar = true → Rd.loadHashmapAug n x y false s = some (viewAug wx wy n v, s'))) := by
+  refine ⟨fun hd => ⟨hd, fun hv => ?_⟩, fun hd => hd.1⟩
+  have := augWalkInline_sound X Y PV x y wx wy hx hy n s v s' hd (noVar_flattenAug _ _ _ _ hv)
+  simp [Rd.loadHashmapAug, this, viewAug]
+
 /-! ### `deserialize_shard_hashes` : `HashmapE 32 ^(BinTree X)` -/
 
 theorem binTreeWalk_sound (X : Codec) (leaf : Bool → Frag → Rd.R) (w : Val → Val) (hleaf : RefinesEP PT (leaf false) X w) :
